@@ -23,16 +23,20 @@ Limits == {[n |-> a, s |-> Inf, h |-> Inf] : a \in {0, 1, 2, 3, 5, 8, 13}}
      \cup {[n |-> MaxRun, s |-> Inf, h |-> a] : a \in {0, 1}}
      \cup {[n |-> 4, s |-> 2, h |-> 1], [n |-> 21, s |-> 4, h |-> 2]}
 
-Ltoks == X!Label(toks, 1)
+\* what was submitted before the limits are set: leaves two items on the stack, so that a meta block of the judged
+\* program runs on top of a hidden outer stack (which counts towards the stack limit)
+Prior == IF Frag = "metalim" THEN <<L(1), L(1)>> ELSE <<>>
+Base0 == IF Prior = <<>> THEN X!Boot ELSE X!Submit(X!Boot, X!Label(Prior, 1), "eval")
+Ltoks == X!Label(toks, 2)
 Set(b, l) == [b EXCEPT !.ilim = l.n, !.slim = l.s, !.hlim = l.h, !.meter = 0]
-Compile(l) == X!Submit(Set(X!Boot, l), Ltoks, "compile")
+Compile(l) == X!Submit(Set(Base0, l), Ltoks, "compile")
 
 \* unlimited reference run on the design (bounded by MaxRun instructions)
 RECURSIVE Trail(_, _)
 Proj(v) == [ip |-> v.ctx.ip, ds |-> v.ds, heap |-> v.heap]
 Trail(v, fuel) == IF fuel = 0 \/ ~X!Ok(v) \/ ~X!Running(v) THEN <<Proj(v)>>
                   ELSE <<Proj(v)>> \o Trail(X!Step(v), fuel - 1)
-Free == X!Submit(Set(X!Boot, [n |-> MaxRun, s |-> Inf, h |-> Inf]), Ltoks, "compile")
+Free == X!Submit(Set(Base0, [n |-> MaxRun, s |-> Inf, h |-> Inf]), Ltoks, "compile")
 FreeFinal == X!Run(Free)
 
 Init2 == Init /\ m = X!Boot /\ lim = [n |-> 0, s |-> 0, h |-> 0] /\ phase = "gen" /\ resumed = FALSE
@@ -60,10 +64,12 @@ Next == (phase = "gen" /\ GenNext /\ UNCHANGED <<m, lim, phase, resumed>>) \/ Pi
 Spec == Init2 /\ [][Next]_allvars
 
 \* ---- the property on the design
+\* a limit set below the current size bounds growth, it cannot shrink what is already there
+Max(a, b) == IF a > b THEN a ELSE b
 HardBounds == phase \in {"run", "end"} =>
                 /\ (resumed \/ m.meter <= lim.n)
-                /\ Len(m.ds) <= lim.s
-                /\ Len(m.heap) <= lim.h
+                /\ Len(m.ds) <= Max(lim.s, Len(Base0.ds))
+                /\ Len(m.heap) <= Max(lim.h, Len(Base0.heap))
 \* hitting the instruction limit is recoverable: the resumed run ends like the unlimited one
 Recoverable == (phase = "end" /\ resumed /\ lim.s = Inf /\ lim.h = Inf /\ Len(Trail(Free, MaxRun)) < MaxRun) =>
                  /\ m.err = FreeFinal.err /\ m.ds = FreeFinal.ds /\ m.heap = FreeFinal.heap
@@ -73,11 +79,16 @@ LimitOnlyAtLimit == (phase = "run" /\ m.err = "Limit" /\ ~resumed) =>
 
 \* ---- export (at the moment the limits are picked: everything below is a function of toks and lim)
 Outcome(l) == LET c == Compile(l) IN IF X!Ok(c) THEN X!Run(c) ELSE c
+\* which limit stopped the run: the instruction limit stops it at a fetch, with no partial effect, in exactly the state
+\* the same run reaches under the instruction limit alone; otherwise a growth path was refused
+InsnOnly(l) == Outcome([n |-> l.n, s |-> Inf, h |-> Inf])
 Which(v, l) == IF v.err # "Limit" THEN "none"
-               ELSE IF v.meter >= l.n THEN "insn" ELSE IF Len(v.heap) >= l.h /\ Len(v.heap) < Len(FreeFinal.heap) + 1 /\ l.h # Inf THEN "heap" ELSE "stack"
+               ELSE IF InsnOnly(l).err = "Limit" /\ InsnOnly(l).ds = v.ds /\ InsnOnly(l).heap = v.heap /\ InsnOnly(l).ctx.ip = v.ctx.ip /\ InsnOnly(l).ss = v.ss
+                    THEN "insn"
+               ELSE IF Len(v.heap) >= l.h /\ l.h # Inf THEN "heap" ELSE "stack"
 L2J(x) == IF x = Inf THEN -1 ELSE x
 Case(l) == LET v == Outcome(l)  t == Trail(Free, MaxRun) IN
-  [src |-> SrcText, n |-> L2J(l.n), s |-> L2J(l.s), h |-> L2J(l.h),
+  [src |-> SrcText, prior |-> [i \in 1..Len(Prior) |-> TokText(Prior[i])], n |-> L2J(l.n), s |-> L2J(l.s), h |-> L2J(l.h),
    err |-> v.err, which |-> Which(v, l), ds |-> X!Visible(v), heap |-> v.heap, out |-> v.out,
    free_ok |-> IF X!Ok(Free) THEN 1 ELSE 0,
    free_terminates |-> IF Len(t) < MaxRun THEN 1 ELSE 0,
